@@ -46,6 +46,7 @@ structure DState where
   nodes : List (Nat × NodeRec) := []
   pubNode : List (Nat × Nat) := []
   subNode : List (Nat × Nat) := []
+  bph : Bool := false   -- publishers carry a backpressure handler that answers DiscardDataAndFail
 
 def ownerOf (m : List (Nat × Nat)) (l : Nat) : Nat := ((m.find? (·.1 = l)).map (·.2)).getD 0
 def getNode (d : DState) (k : Nat) : Option NodeRec := (d.nodes.find? (·.1 = k)).map (·.2)
@@ -171,7 +172,7 @@ where
       if what == "dnode" then (if r.handle then (setNode d 0 { r with handle := false }, "ok") else (d, "none"))
       else (if r.svc then (setNode d 0 { r with svc := false }, "ok") else (d, "none"))
 
-def stepLine (w : Option DState) (t : List String) : Option DState × String :=
+def stepLine0 (w : Option DState) (t : List String) : Option DState × String :=
   match t with
   | ["new", variant, mp, ms, b, h, r, ov, e] =>
       -- service builder: without safe overflow the buffer must hold the whole history
@@ -208,6 +209,25 @@ def stepLine (w : Option DState) (t : List String) : Option DState × String :=
       match sop with
       | none => (some d, "bad-op")
       | some op => let (w', out) := Iox2.Shutdown.step d.sw op; (some { d with sw := w' }, out)
+
+/-- worlds with a backpressure handler (`bph`): the handler is asked when the buffer of a CONNECTED receiver is full and safe
+overflow is off; it answers DiscardDataAndFail, so the sample is skipped for that receiver exactly as without a handler
+(the proved `send` step) and the call reports `UnableToDeliver` instead of the number of recipients. The skipped
+connections are read off the model's ghost log `gSkipped` (send number of this very send). -/
+def stepLine (w : Option DState) (t : List String) : Option DState × String :=
+  match w, t with
+  | some d, ["bph"] => (some { d with bph := true }, "ok")
+  | some d, "send" :: p :: _ =>
+    let seq := (getP d.sw.w (nat! p)).map (·.seq)
+    let (w', out) := stepLine0 w t
+    if d.bph && out.startsWith "ok:" then
+      match w', seq with
+      | some d', some q =>
+        if d'.sw.w.conns.any (fun c => c.pid == nat! p && c.rAtt && c.gSkipped.getLast? == some q) then (w', "err:UnableToDeliver")
+        else (w', out)
+      | _, _ => (w', out)
+    else (w', out)
+  | _, _ => stepLine0 w t
 
 def comp : Comp := { σ := Option DState, init := none, step := stepLine }
 end Driver.PubSubD
